@@ -49,12 +49,17 @@ class Wire:
         self.answers = list(answers)
         self.k = 0
         self.acked = []   # decoded payloads of acknowledged requests
+        self.timeout = None   # the time limit the client put on the request being answered (None: it waits)
 
     def __call__(self, payload, url):
         a = self.answers[self.k] if self.k < len(self.answers) else "Refuse"
         self.k += 1
         if a == "Ack":
             self.acked.append(json.loads(payload.decode("utf-8")))
+            # every third acknowledgement comes from a server that works on the request for a long time: a client that gives up
+            # waiting (a time limit on the request) sees a failure although the request is stored and acknowledged
+            if self.timeout is not None and len(self.acked) % 3 == 0:
+                raise TimeoutError("timed out")
             # the text of the acknowledgement is the server's business: ASCII, UTF-8 or another encoding
             return [b"ok", b"", "gespeichert \u00e4\u00fc".encode("latin-1") + b"\xff", "\u4fdd\u5b58".encode("utf-8")][len(self.acked) % 4]
         if a == "Refuse":
@@ -93,9 +98,10 @@ class Response:
 def install(wire, clock):
     old = (rdbmod.urlopen, rdbmod.sleep, pers.time, renv._source)
 
-    def fake_urlopen(req, *a, **kw):
+    def fake_urlopen(req, data=None, timeout=None, *a, **kw):
         if req.get_method() != "PUT":
             return Response(b"", {})
+        wire.timeout = timeout if isinstance(timeout, (int, float)) else None
         return Response(wire(req.data, req.full_url))
     rdbmod.urlopen = fake_urlopen
     rdbmod.sleep = lambda s: None
